@@ -8,7 +8,19 @@ RE_POOL = ['/[a-z]+/', '/[a-z_]\\w*/', '/\\w+/', '/[a-c]+/', '/a+/', '/ab?/', '/
 ALPHA = list('ifelsxab=+;0 1IF') + ['  ', 'if', 'else', 'ab', '==', 'a1', 'int', '0x', 'ff', 'abcd']
 
 
+# (keyword, regexp) pairs where the regexp CAN match the keyword in full but its preferred match of the keyword is shorter (lazy quantifier): by the documented
+# exception ("text matched by a regexp terminal which is exactly a string terminal") the keyword is not carved out, and — being the longer pattern of equal maximal
+# width — it is tried first
+LAZY_PAIRS = [('"procedure"', '/\\w{1,9}?/'), ('"elsewise"', '/.{1,8}?/'), ('"aaaaaaaaa"', '/a{1,9}?/'), ('"procedure"', '/[a-z]{1,9}?/')]
+
+
 def gen_case(rng, big=False):
+    if not big and rng.random() < 0.03:
+        kw, rx = rng.choice(LAZY_PAIRS)
+        g = 'start: (KW | W | X)*\nKW: %s\nW: %s\nX: "x"\n' % (kw, rx) + ('%ignore " "\n' if rng.random() < 0.5 else '')
+        word = kw.strip('"')
+        texts = [''.join(rng.choice([word, word[:3], 'x', ' ', word + 'x', 'a']) for _ in range(rng.randint(1, 4))) for _ in range(3)]
+        return g, texts
     if not big and rng.random() < 0.06:
         # two parser states whose sets of acceptable terminal *names* look alike once joined: {A, B} after "(" and {A_B} after "["
         pa, pb, pab = rng.sample(['"a"', '"b"', '"ab"', '/[a-c]+/', '"if"', '/[0-9]+/', '"x"'], 3)
